@@ -52,7 +52,7 @@ var specs = map[string]*propSpec{
 	},
 	"C13": {
 		ID: "C13",
-		Rule: "part 1 (walked completely, as a workload): every call sequence up to depth 3 (quick) / 4 (thorough) over the alphabet {AddWarrior(w0|w1|w2), SpawnWarrior(i,off) i in -1..count+1, off in {0,M-1,M,2M+3}, " +
+		Rule: "part 1 (walked completely, as a workload): every call sequence up to depth 3 (quick) / 4 (thorough) over the alphabet {AddWarrior(w0|w1|w2|w3) (imp, DAT, a loop entered at its second cell, a warrior without code), SpawnWarrior(i,off) i in -1..count+1, off in {0,M-1,M,2M+3}, " +
 			"RunCycle, Run, Reset, GetWarrior(i), GetMem(2M+3)} on a core of 5; part 2: random histories of 3..40 calls (M 5..8, P 1..3, C in {1,2,3,5,40}, two extra random warriors, some longer than the core; offsets and GetMem addresses also near 2^32, 2^63 and 2^64-1) biased toward Reset, respawn and calls after decision, half of them steered by a private model so that live battles are mostly stepped; one random history in 1201 is a MARATHON of 1500..3000 steered calls on one simulator; " +
 			"after EVERY call the monitor compares return values/errors/nils, core, queues, NextPC, alive flags, counters and the internal invariants with the reference API state machine; Run() executes under a CPU-time progress monitor; " +
 			"half of the random histories are extended to the relational check (prefix; Reset; respawn; tail) vs (fresh; spawn; tail) compared call by call on two real simulators. " +
@@ -90,7 +90,7 @@ var specs = map[string]*propSpec{
 			"After every cycle the StateRecorder is compared cell by cell with an independent fold of the same stream and with the last-toucher fold of the reference event stream (owner exact, kind among the kinds of that task; a touch that left the content unchanged is optional); after Reset every address must be empty. " +
 			"non-trivial = task with a pre-decrement/post-increment side effect on a cell other than the write target; distinct by (opcode, A-mode, B-mode)",
 		Assumptions: append([]string{
-			"the order of reports inside one task is not prescribed (only that TaskPop comes first); read reports are not checked"}, commonAssumptions...),
+			"inside one task TaskPop comes first and the side effects of operand evaluation (A before B) precede the opcode's own write / decrement / death (the recorder must show the LAST operation on a cell); the order of 'write' and 'task terminated' inside the execution phase is not prescribed; read reports are not checked"}, commonAssumptions...),
 		Floor:  map[string]int{"quick": 300, "thorough": 800},
 		Phases: mainPhase,
 	},
@@ -185,11 +185,12 @@ var specs = map[string]*propSpec{
 	"C16": {
 		ID: "C16",
 		Rule: "case idx -> warrior (first instruction ENUMERATES all forms legal in the dialect; fields across [0,M) with 0, M/2, M/2+1, M-1 forced on half of the cases; every entry point; M in {3,7,80,257,8000,8191,8192} and occasionally 2^20; ICWS88, ICWS94 and NOP94 simulators) obtained through the real assembler, the real loader, or hand-made WarriorData; " +
-			"AddWarrior + LoadCode() — taken right after adding, after SpawnWarrior at a random offset, after a few cycles, or after Reset — gives the listing, which an independent reader of the pMARS listing conventions (START label, ORG START / END START, signed fields in (-M,M), upper-case OP.MOD in '94, no modifier in '88 with the modifier implied by the '88 table) must read back to exactly the warrior, fields compared modulo M. " +
+			"AddWarrior + LoadCode() — taken right after adding, after SpawnWarrior at a random offset, after a few cycles, or after Reset — gives the listing, which an independent reader of the pMARS listing conventions (START label, ORG START / END START, signed fields in (-M,M), upper-case OP.MOD in '94, no modifier in '88 with the modifier implied by the '88 table) must read back to exactly the warrior, fields compared modulo M; a third of the simulators have random read/write/process/cycle limits. One case in 40 runs the freshly built cmd/gmars with -A on a by-construction program under a preset or -8/-s/-l flags and reads its stdout back with the conventions of the rule set and core size those options select. " +
 			"non-trivial = entry point != 0 or a field > M/2 (printed negative); distinct by (dialect, form of the first instruction)",
 		Assumptions: commonAssumptions,
 		Floor:       map[string]int{"quick": 2000, "thorough": 5000},
 		Phases:      mainPhase,
+		NeedCLI:     true,
 	},
 	"C17": {
 		ID: "C17",
@@ -198,7 +199,7 @@ var specs = map[string]*propSpec{
 			"Process monitor: exit status 0, empty stderr, exactly the expected number of 'wins ties' lines; fixed placement: the lines equal rounds x the outcome of the reference MARS run on the by-construction meanings under the configuration the options describe (preset table written from the README); random placement: wins1+wins2+ties == rounds and ties1 == ties2, and on cores <= 600 the reference enumerates every placement the tool may draw (2*length..size-length-1): the tallies may only contain outcomes some placement produces (exact when all placements agree). " +
 			"non-trivial = decided (non-tie) battle or non-default flag set; distinct by (flag set, outcome)",
 		Assumptions: append([]string{
-			"the options describe: read/write limits equal to the core size, minimum distance equal to the maximum length; preset values as documented in the README table",
+			"the options describe: read/write limits equal to the core size, minimum distance equal to the maximum length (flags) or the hill's usual minimum distance (presets: 100,100,100,20,10,5 — the README table has no such column); other preset values as documented in the README table",
 			"a 120 s wall-clock limit per CLI invocation only produces an INCONCLUSIVE line, never a verdict"}, commonAssumptions...),
 		Floor:   map[string]int{"quick": 30, "thorough": 100},
 		Phases:  mainPhase,
